@@ -432,7 +432,7 @@ func qRun(sc qScenario, observe func(dir string, h *qHistory)) *qHistory {
 				time.Sleep(time.Duration(m.AcceptAfterMin) * time.Minute)
 			}
 			meta := &module.MsgMetadata{
-				ID: m.ID, OriginalFrom: m.OriginalFrom, TLSRequireOverride: m.TLSOverride,
+				ID: m.ID, OriginalFrom: m.OriginalFrom,
 				SMTPOpts: smtp.MailOptions{UTF8: m.UTF8, RequireTLS: m.RequireTLS},
 				Conn:     &module.ConnState{Proto: "ESMTPSA", Hostname: "client.example", AuthUser: m.AuthUser, AuthPassword: m.AuthPassword},
 			}
@@ -458,6 +458,9 @@ func qRun(sc qScenario, observe func(dir string, h *qHistory)) *qHistory {
 				d.Abort(ctx)
 				continue
 			}
+			// as the SMTP endpoint does: the TLS-Required override is known only once the header has
+			// been read, i.e. after Start and the AddRcpt calls
+			meta.TLSRequireOverride = m.TLSOverride
 			var body buffer.Buffer = buffer.MemoryBuffer{Slice: []byte(m.Body)}
 			if m.BodyInFile {
 				p := filepath.Join(bufDir, m.ID)
